@@ -193,7 +193,10 @@ func (p *PM) Read(r *Rdr, name string, m *description.Media, f format.Format) (*
 		vsched.Yield()
 		switch pl := u.Payload.(type) {
 		case unit.PayloadH264:
-			vsched.Log("got %s %c%d", r.ID, pl[0][1], pl[0][2])
+			last := pl[len(pl)-1]
+			if len(last) >= 3 {
+				vsched.Log("got %s %c%d", r.ID, last[1], last[2])
+			}
 		case unit.PayloadG711:
 			// units of the offline sub stream (silence) are not publisher data: not logged
 			if len(pl) == 2 && pl[0] >= 'A' && pl[0] <= 'Z' {
